@@ -1301,6 +1301,11 @@ class Sim:
         self.check_sem()
 
     def p_shrink(self):
+        """shrink(1).  With probability 1/2 a supervision pass is interleaved
+        (sys.monitoring LINE failpoint scoped to Pool.shrink) right after the
+        victim was signalled and has exited - the supervisor thread of a
+        threads=True pool can run exactly there."""
+        import sys
         self.begin('shrink')
         if self.target <= 1 or any(w.alive and (w.state == 'has_task' or w.victim)
                                    for w in self.workers) or \
@@ -1308,22 +1313,56 @@ class Sim:
             # (shrink picking a worker that is already going/gone decrements
             # the target without removing anyone: not generated, see DESIGN)
             return
-        if self.prof.get('putlocks') and self.sem_value()[0] <= 0:
+        if self.sem_value()[0] <= 0:
             return
         before = {w.pid for w in self.workers if w.termed}
+        sim = self
+        interleave = self.rng.random() < 0.5
+        M = sys.monitoring
+        TOOL = 4
+        fired = [False]
+        code = self.bp.Pool.shrink.__code__
+
+        def mark_victims():
+            for w in sim.workers:
+                if w.termed and w.pid not in before and not w.victim:
+                    w.victim = True
+                    if any(w.pid in j.owners_unfinished() for j in sim.jobs.values()
+                           if j.jid in sim.pool._cache):
+                        sim.viol({'C09'}, 'shrink_terminated_busy_worker', pid=w.pid)
+
+        def on_line(c, ln):
+            if fired[0]:
+                return
+            new = [w for w in sim.workers if w.termed and w.pid not in before and w.alive]
+            if not new:
+                return
+            fired[0] = True
+            mark_victims()
+            sim.stat('supervise_interleaved_in_shrink')
+            for w in new:
+                w.lingers = False
+                sim.w_obey_term(w)
+            sim.p_supervise()
+            sim.cur_step_kind = 'shrink'
+        self.target -= 1          # the caller's intent; rolled back if refused
+        self.grew = self.grew_or_shrunk = True
+        if interleave:
+            M.use_tool_id(TOOL, 'vmon-sim')
+            M.register_callback(TOOL, M.events.LINE, on_line)
+            M.set_local_events(TOOL, code, M.events.LINE)
         try:
             self.pool.shrink(1)
         except ValueError:
+            self.target += 1
             self.log('shrink_refused')
             return
-        self.target -= 1
-        self.grew = self.grew_or_shrunk = True
-        for w in self.workers:
-            if w.termed and w.pid not in before:
-                w.victim = True
-                if any(w.pid in j.owners_unfinished() for j in self.jobs.values()
-                       if j.jid in self.pool._cache):
-                    self.viol({'C09'}, 'shrink_terminated_busy_worker', pid=w.pid)
+        finally:
+            if interleave:
+                M.set_local_events(TOOL, code, 0)
+                M.register_callback(TOOL, M.events.LINE, None)
+                M.free_tool_id(TOOL)
+        mark_victims()
         self.log('shrink')
         self.stat('shrink')
         self.check_sem()
